@@ -48,15 +48,32 @@ func newEngine(c *lab.Ctx, protos []string, routes func(proto string) []routeSpe
 	e.dead = fmt.Sprintf("127.0.0.1:%d", ports[len(protos)])
 	cfg := &mosnConfig{}
 	for i, p := range protos {
-		var hosts []jmap
-		for _, hn := range []string{"a", "b"} {
-			name := p + "-" + hn
-			u, err := startUpstream(e.log, name, p)
-			if err != nil {
-				return nil, err
+		// every cluster gets its own upstream servers: MOSN keys connection pools by host address, so clusters
+		// sharing an address would share pools and breaker books
+		mkHosts := func(names ...string) ([]jmap, error) {
+			var hosts []jmap
+			for _, hn := range names {
+				name := p + "-" + hn
+				u, err := startUpstream(e.log, name, p)
+				if err != nil {
+					return nil, err
+				}
+				e.ups[name] = u
+				hosts = append(hosts, jmap{"address": u.Addr, "hostname": name, "weight": 1})
 			}
-			e.ups[name] = u
-			hosts = append(hosts, jmap{"address": u.Addr, "hostname": name, "weight": 1})
+			return hosts, nil
+		}
+		hosts, err := mkHosts("a", "b")
+		if err != nil {
+			return nil, err
+		}
+		hostsLim, err := mkHosts("c")
+		if err != nil {
+			return nil, err
+		}
+		hostsOne, err := mkHosts("d")
+		if err != nil {
+			return nil, err
 		}
 		mk := func(name string, hosts []jmap) jmap {
 			cl := jmap{"name": name, "type": "SIMPLE", "lb_type": "LB_ROUNDROBIN", "max_request_per_conn": 100000, "conn_buffer_limit_bytes": 32768, "hosts": hosts}
@@ -67,7 +84,7 @@ func newEngine(c *lab.Ctx, protos []string, routes func(proto string) []routeSpe
 			}
 			return cl
 		}
-		cfg.Clusters = append(cfg.Clusters, mk("cl-"+p, hosts), mk("cl-"+p+"-empty", []jmap{}), mk("cl-"+p+"-dead", []jmap{{"address": e.dead, "hostname": "dead", "weight": 1}}))
+		cfg.Clusters = append(cfg.Clusters, mk("cl-"+p, hosts), mk("cl-"+p+"-lim", hostsLim), mk("cl-"+p+"-one", hostsOne), mk("cl-"+p+"-empty", []jmap{}), mk("cl-"+p+"-dead", []jmap{{"address": e.dead, "hostname": "dead", "weight": 1}}))
 		var rs []jmap
 		for _, r := range routes(p) {
 			entry := jmap{"match": routeMatch(p, r.Key)}
